@@ -157,6 +157,12 @@ theorem namesFromKey_order_independent (x : Flatten.Ext) (s : List String) (fl :
     Flatten.namesFromKey x s fl ops' = .ok names :=
   Proofs.NamesPerm.namesFromKey_perm x s fl hp hn names h
 
+/-- the second loop of `stripOAIGen` visits the created refs in descending key order (since the repair `070f1bf`):
+    the visit order is the same for every order in which the map `newRefs` is enumerated -/
+theorem stripOAIGen_visit_order_independent {s s' : Flatten.St} (hp : s.ctx.newRefs.Perm s'.ctx.newRefs) :
+    Flatten.stripOrder s = Flatten.stripOrder s' :=
+  Proofs.NamesPerm.stripOrder_perm hp
+
 /-- the hypothesis `KeysApart` of the theorems above is met by every reference map whose keys have pairwise
     different token paths that spell their numerals canonically (`"7"`, never `"07"`) — as the analyzer writes
     array indices; only property or definition *names* such as `07` next to `7` fall outside -/
